@@ -1,6 +1,15 @@
 use crate::engine::*;
 
 
+/// The `width` lowest bits set (`(1 << 63) - 1` overflows an i64).
+fn bit_mask(width: u8) -> i64 {
+    if width >= 63 {
+        i64::MAX
+    } else {
+        (1 << width) - 1
+    }
+}
+
 #[derive(Debug)]
 pub struct BitUnpackOperator {
     pub input: BufferRef<i64>,
@@ -14,7 +23,7 @@ impl<'a> VecOperator<'a> for BitUnpackOperator {
         let data = scratchpad.get(self.input);
         let mut unpacked = scratchpad.get_mut(self.output);
         if stream { unpacked.clear(); }
-        let mask = (1 << self.width) - 1;
+        let mask = bit_mask(self.width);
         for d in data.iter() {
             unpacked.push((d >> self.shift) & mask);
         }
@@ -35,7 +44,7 @@ impl<'a> VecOperator<'a> for BitUnpackOperator {
 
     fn display_op(&self, alternate: bool) -> String {
         if alternate {
-            let mask = (1 << self.width) - 1;
+            let mask = bit_mask(self.width);
             format!("({} >> {}) & {:x}", self.input, self.shift, mask)
         } else {
             format!("({} >> $shift) & $mask", self.input)
